@@ -227,6 +227,13 @@ def driver_models(prog):
         dw = it.user['dw']
         stp = args[0]
         pids = sorted(dw.live)
+        # a child the driver did not start (inherited from the invoking shell: `sleep 1 & exec cproc ...`) may end at any time: wait() then reports a pid that is no stage's
+        if dw.faults.get('foreign') and not getattr(dw, 'foreign_done', False) and pids:
+            if it.decide(2, ('wait-foreign',)):
+                dw.foreign_done = True
+                it.assign(stp.obj, stp.path, 0)
+                it.event('reap-foreign', 9999)
+                return 9999
         if not pids:
             it.event('wait-nochild')
             return -1
